@@ -275,6 +275,22 @@ CHECKS = {
          "find_free_address then spins without yielding, noted in DESIGN)",
          "invariant assertion at a hook on the simulated hardware "
          "(register 0x10 writes) under seeded schedules", "4 C25"),
+ "C18": ("exploration",
+         "Seeded random masters (1-12 terminals, FMMU / direct / "
+         "Aerotech-style, read-only / read-write, 1-4 slow and fast sync "
+         "groups, incl. oversized ones): after the real allocate() the "
+         "cyclic frame is parsed independently and each terminal's regions "
+         "are checked for exact size, containment in the transporting "
+         "datagram, disjointness, agreement of fmmu_maps with the datagram's "
+         "logical base, disjoint logical windows across groups, and "
+         "OverflowError for groups that cannot fit; dynamic leg: the real "
+         "map_fmmu programs FMMU registers of terminal models, one cycle is "
+         "exchanged and unique RAM patterns must land exactly in their "
+         "regions / output RAM.",
+         "placement freedom is accepted (any disjoint placement inside the "
+         "transporting datagram); groups without process data are skipped",
+         "layout invariant monitor after the real allocation + data-path "
+         "probe through the simulated bus", "4 C18"),
 }
 
 NOT_YET = "check not built yet in this round (design in DESIGN.md section 4)"
